@@ -2,6 +2,7 @@
 From Coq Require Import ZArith List Sorted.
 From Acme.C01 Require Import Layout State Model ProofsLayout ProofsInv Refuted ProofsT1 ProofsSpec.
 From Acme.C07 Require Import Proofs.
+From Acme.C01 Require Import Examples ProofsFrame.
 Open Scope Z_scope.
 
 (* the boolean predicate evaluated on the implementation's snapshots is the declarative one *)
@@ -120,3 +121,28 @@ Theorem compact_spec : forall s m, InvA s ->
   /\ (forall y, In y (glay s m) -> rel s' y <= rel s y).
 Proof. exact ProofsSpec.compact_spec. Qed.
 Print Assumptions compact_spec.
+
+(* Non-vacuity: a concrete, non-trivial history (shared enum growing under a follower, a type
+   change, a shift, a compaction) satisfies the hypotheses of T1. *)
+Theorem hypotheses_satisfiable : ok_hist_w example_ops /\
+  map (fun x => (x, rel (run example_ops) x, sz (run example_ops) x)) (glay (run example_ops) 0)
+  = ((0%nat, 0, 2) :: (1%nat, 2, 5) :: (2%nat, 7, 3) :: nil).
+Proof. exact (conj example_ok example_final). Qed.
+Print Assumptions hypotheses_satisfiable.
+
+(* T4 (frame), sizes: an operation changes the size only of the signal it names (SetType / SetEnum),
+   of the signals of the enum it edits, or of the handle it creates. All 27 operations. *)
+Theorem frame_sizes : forall s o y, ~ resized_by s o y -> sz (fst (step s o)) y = sz s y.
+Proof. exact ProofsFrame.frame_sizes. Qed.
+Print Assumptions frame_sizes.
+
+(* T4 (frame), positions, partial: a signal moves only if it is the one named by an attach / shift,
+   sits in the compacted message, or sits in a layout that holds the signal resized by SetType /
+   SetEnum. Partial: for AddValue / UpdateIndex the moved set is not characterised ([may_move] is
+   True there), "in a layout holding the resized signal" is weaker than "behind it", and the
+   relative order of unnamed signals is only checked on the implementation (harness class
+   frame-order). *)
+Theorem frame_positions_partial : forall s o y, InvA s -> ok_op s o ->
+  rel (fst (step s o)) y <> rel s y -> may_move s o y.
+Proof. exact ProofsFrame.frame_positions_partial. Qed.
+Print Assumptions frame_positions_partial.
